@@ -331,7 +331,7 @@ End PtInd.
 Lemma flat_pt_sub : forall ids dir hard soft nm enum ptr sw sub,
   flat_pt ids dir hard soft (PSub nm enum ptr sw sub) =
   flat_map (fun x => flat_tbl ids (dir ++ x) (hard ++ olist (option_map (fun g => dir ++ g) ptr))
-                              (soft ++ olist (option_map (fun g => dir ++ g) sw)) sub 0%nat)
+                              (soft ++ olist (option_map (sw_addr dir (sub_name nm enum) x) sw)) sub 0%nat)
            (expand (sub_segs nm enum)).
 Proof.
   intros. cbn [flat_pt]. apply flat_map_ext. intros x.
